@@ -204,15 +204,26 @@ def check_parse_levels(ctx, sql, d, max_errors, parsers, kind):
             viol("trees-differ-between-levels-on-valid-input")
 
 
-def check_generate_levels(ctx, tree, read, write, max_unsupported):
+_GENS = {}
+
+
+def check_generate_levels(ctx, tree, read, write, max_unsupported, reuse=False):
     from sqlglot.errors import ErrorLevel, UnsupportedError, SqlglotError
+    from sqlglot.dialects.dialect import Dialect
 
     wn = write or "base"
-    case = {"sql": tree.sql(dialect=read), "read": read or "base", "write": wn, "max_unsupported": max_unsupported}
+    case = {"sql": tree.sql(dialect=read), "read": read or "base", "write": wn, "max_unsupported": max_unsupported, "reused_generator": reuse}
     out = {}
     for L in (ErrorLevel.IGNORE, ErrorLevel.WARN, ErrorLevel.RAISE, ErrorLevel.IMMEDIATE):
         cap = capture()
         try:
+            if reuse:
+                # one long-lived Generator per (dialect, level): what it reports must not depend on earlier calls
+                key = (write, L, max_unsupported)
+                if key not in _GENS:
+                    _GENS[key] = Dialect.get_or_raise(write).generator(unsupported_level=L, max_unsupported=max_unsupported)
+                out[L] = ("ok", _GENS[key].generate(tree), list(cap.records))
+                continue
             out[L] = ("ok", tree.sql(dialect=write, unsupported_level=L, max_unsupported=max_unsupported), list(cap.records))
         except UnsupportedError as e:
             out[L] = ("UnsupportedError", str(e), list(cap.records))
@@ -286,7 +297,7 @@ def worker(ctx):
                 continue
             except Exception:
                 continue
-            check_generate_levels(ctx, tree, read, write, rng.choice([1, 3]))
+            check_generate_levels(ctx, tree, read, write, rng.choice([1, 3]), reuse=rng.random() < 0.5)
         if i % 301 == 0:
             ctx.sample({"inputs": inputs[:3]})
     if ctx.shard == 0:
@@ -318,6 +329,13 @@ def generation_probes(ctx):
         for mu in (1, 3):
             check_generate_levels(ctx, tree, read, write, mu)
             ctx.count("unsupported_seed_cases")
+        # history: a supported tree right after an unsupported one on the same long-lived generators, and back
+        try:
+            plain = sqlglot.parse_one("SELECT a, b FROM t WHERE a > 1")
+            for t2 in (tree, plain, tree, plain):
+                check_generate_levels(ctx, t2, read, write, 3, reuse=True)
+        except Exception:
+            pass
 
 
 def conclude(agg):
